@@ -336,7 +336,12 @@ pub fn run(run: &mut Run) -> Finish {
                             tokens.push((cols[b].0, cols[b].1, Some("o1".to_string())));
                         }
                     }
-                    let queries = tokens.iter().flat_map(|t| qn.iter().map(move |n| (t.0, t.1 + 1, n.clone()))).collect();
+                    // a second token at the first one's position, and a start further right on the line
+                    if b.is_some() {
+                        tokens.push((cols[a].0, cols[a].1, Some("o2".to_string())));
+                    }
+                    let mut queries: Vec<(u32, u32, String)> = tokens.iter().flat_map(|t| qn.iter().map(move |n| (t.0, t.1 + 1, n.clone()))).collect();
+                    queries.extend(qn.iter().map(|n| (cols[a].0, u32::MAX, n.clone())));
                     let c = Case { program: p.clone(), tokens, queries, assert_results: false };
                     if let Some((sig, what)) = check_case(&c) {
                         l.violation_sub(idx, sub, Viol::new(format!("C17/{sig}"), what, json!({"case": serde_json::to_value(&c).unwrap()})));
